@@ -373,7 +373,7 @@ HARNESSES = [
                      "dns.rdataset.Rdataset.to_wire"],
             bound="zone class IN (and CH with TXT records); 1 symbolic update operation (10 kinds x 3 names x 4 records), and 2 operations with the first from {add, delete rdata, present rdata} (thorough: all); TTL symbolic",
             stubs=["E1", "E5", "E6", "E8"], outside="longer update scripts"),
-    Harness("H03c", h03c, h03c_pre, lambda tier: [{"names": n, "pad": (0x3FF6, 0x4001), "strict": False, "_timeout": 400, "_path_timeout": 60} for n in ((2,) if tier == "quick" else (2, 3))],
+    Harness("H03c", h03c, h03c_pre, lambda tier: [{"names": n, "pad": (0x3FF6, 0x4001), "strict": False, "_timeout": 400 if n == 2 else 2400, "_path_timeout": 60} for n in ((2,) if tier == "quick" else (2, 3))],
             kind="universal", encodes=["dns.name.Name.to_wire", "dns.name.from_wire_parser"],
             bound="2 (3) names of two one-octet symbolic labels over a shared or private suffix written at start offsets 0x3FF6..0x4001 (every suffix position crosses 0x3FFF)",
             stubs=["E1", "E6"], outside="whole 16 KiB messages (the renderer uses this very routine for every name)"),
